@@ -16,7 +16,7 @@ ASSUMPTIONS = ["rapidfuzz.process.cdist(workers=-1) is answered with one thread 
                "edge vectors drawn from {0,0.5,1,2,3[,4]}; pseudocounts {0,0.5,1}",
                "normalised results compared to 1e-12; raw counts compared exactly"]
 REQUIRED_CLASSES = {"all": ["value-on-last-edge", "value-on-inner-edge", "total-zero-normalised", "pseudocount>0", "second-collection", "tcr-table-default-metric",
-                            "maxseqs-downsampled", "bins=0", "asymmetric-metric", "legacy-tuple", "free-running-threads", "default-bins-boundary", "tcr-table-distances-beyond-25"]}
+                            "maxseqs-downsampled", "bins=0", "asymmetric-metric", "legacy-tuple", "free-running-threads", "default-bins-boundary", "tcr-table-distances-beyond-25", "tcr-two-independent-tables", "normalize-spelled-0-1-numpy-bool"]}
 MIN_OUTCOMES = 10
 SINGLE_THREAD_RAPIDFUZZ = True
 
@@ -245,6 +245,17 @@ def check_case(case, acc):
             for v in variants:
                 if not _one(acc, seqs, seqs2, v["mname"], v["edges"], v["form"], v["normalize"], v["pc"]):
                     return
+            # the flag given as 0 / 1 / numpy.bool_ (the result of a numpy comparison) means the same as False / True
+            acc.cls("normalize-spelled-0-1-numpy-bool")
+            import numpy as np
+            vals_ = ref_values("default", seqs, seqs2)
+            for spell, val in (("0", 0), ("numpy.False_", np.False_), ("1", 1), ("numpy.True_", np.True_)):
+                r = acc.call(pyrepseq.pcDelta, list(seqs), None if seqs2 is None else list(seqs2), bins=[0, 1, 2, 3], normalize=val, pseudocount=0.5)
+                e = expected(vals_, (0, 1, 2, 3), bool(val), 0.5)
+                if not same(r, e, bool(val)):
+                    acc.fail("pcDelta/normalize-spelled/%s" % spell, ("star-norm", seqs, seqs2, spell), e, r)
+                    return
+                acc.ok()
             if seqs2 is None:
                 # the very same list object as both collections: all N*N cross pairs, diagonal included
                 same_obj = list(seqs)
@@ -275,8 +286,10 @@ def check_case(case, acc):
                 acc.fail("pcDelta/default-bins", ("star1", seqs, seqs2), e, r)
                 return
             acc.ok()
-    elif kind == "star1":
-        check_case(("star", case[1]), acc)
+    elif kind in ("star1", "star-norm"):
+        check_case(("star", tuple(case[1])), acc)
+    elif kind == "table2":
+        _check_table(acc, ("table", tuple(tuple(r) for r in case[1])))
     elif kind == "table":
         _check_table(acc, case)
     elif kind == "maxseqs":
@@ -410,6 +423,26 @@ def _check_table(acc, case):
                 acc.fail("pcDelta/tcr-table/bins=0", case, e, r)
                 return
             acc.ok()
+    # an independent second table: first row equal to the first table's first row (or last), second row free - a shortcut that
+    # looks only at the first row of the comparison table, or at a chain that is constant in one table, shows up here
+    if n <= 3:
+        acc.cls("tcr-two-independent-tables")
+        rows = list(itertools.product(range(3), range(3)))
+        seconds = [(tab[0], r) for r in rows] + [(r, tab[0]) for r in rows if r != tab[0]]
+        for tab2 in seconds:
+            A2 = [CD[a] for a, b in tab2]
+            B2 = [CD[b] + "F" * a for a, b in tab2]
+            for cols in (("CDR3A",), ("CDR3B",), ("CDR3A", "CDR3B")):
+                d1 = pd.DataFrame({"CDR3A": A, "CDR3B": B})[list(cols)]
+                d2 = pd.DataFrame({"CDR3A": A2, "CDR3B": B2})[list(cols)]
+                v = [(ref_lev(A[i], A2[j]) if "CDR3A" in cols else 0) + (ref_lev(B[i], B2[j]) if "CDR3B" in cols else 0)
+                     for i in range(n) for j in range(2)]
+                r = acc.call(pyrepseq.pcDelta, d1, d2, bins=edges, normalize=False)
+                e = expected(v, edges, False, 0)
+                if not same(r, e, False):
+                    acc.fail("pcDelta/tcr-table/two-independent-tables/%s" % "+".join(cols), ("table2", tab, tab2, cols), e, r)
+                    return
+                acc.ok(("2tab", cols, tuple(e)), nontrivial=True)
     # legacy tuple form == both
     acc.cls("legacy-tuple")
     values = variants["both"][1]
